@@ -8,14 +8,16 @@ Open Scope nat_scope.
 
 (* For ANY statement semantics and ANY script lists, any configuration, any number of process starts with
    any placement of failures (before / after the effect of any database call): the monitor accepts the whole
-   call log -- a script is only ever applied when all its predecessors of the stream were (file order, no
-   gaps), a version v is only recorded when scripts 0..v-1 were applied -- and in the resulting database
-   the recorded version of every stream is at most the number of scripts applied. *)
+   call log -- a script only ever takes effect when all its predecessors of the stream did (file order, no
+   gaps) and when its own version is not recorded yet (what is recorded is never run again); a version v is
+   only recorded when scripts 0..v-1 were applied -- and in the resulting database the version of every
+   stream is at least what the log recorded and at most the number of scripts applied. *)
 Theorem version_never_ahead :
   forall (cat stmt : Type) (exec : stmt -> cat -> option cat) (scripts : stream -> list stmt)
          (c : cfg) (runs : list (list outcome)) (c0 : cat),
-  exists app, mon_run (fun _ => 0) (snd (multi_run cat stmt exec scripts c runs (db0 cat c0))) = Some app /\
-              forall k, d_vers (fst (multi_run cat stmt exec scripts c runs (db0 cat c0))) k <= app k.
+  exists m, mon_run mst0 (snd (multi_run cat stmt exec scripts c runs (db0 cat c0))) = Some m /\
+            forall k, m_rec m k <= d_vers (fst (multi_run cat stmt exec scripts c runs (db0 cat c0))) k /\
+                      d_vers (fst (multi_run cat stmt exec scripts c runs (db0 cat c0))) k <= m_app m k.
 Proof. exact never_ahead. Qed.
 Print Assumptions version_never_ahead.
 
